@@ -34,6 +34,8 @@ Definition e_run (r : list report * list obs) : sexp := e_pair (e_list e_report)
    7, 8: the same two in strict mode (the first report raises)
    10: both engine runs from a file read FILTERED by the citations (end-to-end stream)   arg (file citations min_crossrefs fields)
    11: read_filtered                                        arg (file (citations)|())
+   14: both engines over several sources                  arg (sources citations min_crossrefs fields)
+   15: one parser over several sources                    arg (sources (citations)|())
    13: a history of look-ups and edits on live objects     arg (db ops)
    12: BST fields vs names() of the stock styles, from files  arg (file_bst file_py citations min_crossrefs roles)
    9: Entry._find_field for every entry x every name   arg (db names use_bib_data) *)
@@ -90,6 +92,13 @@ Definition dispatch (fn : Z) (a : sexp) : sexp :=
             let cs := d_list d_str (d_nth a 2) in let roles := d_list d_str (d_nth a 4) in
             L [e_res e_run (bst_run_file d cs (d_Z (d_nth a 3)) roles);
                e_res e_run (lower_keys (format_bibliography_names (read_filtered (Some cs) dP) cs (d_Z (d_nth a 3)) roles))]
+  | 14%Z => let srcs := d_list d_db (d_nth a 0) in
+            let cs := d_list d_str (d_nth a 1) in let fs := d_list d_str (d_nth a 3) in
+            L [e_res e_run (bst_run_sources srcs cs (d_Z (d_nth a 2)) fs);
+               e_res e_run (lower_keys (format_bibliography_sources srcs cs (d_Z (d_nth a 2)) fs))]
+  | 15%Z => let st := read_sources_state (d_opt (d_list d_str) (d_nth a 1)) (d_list d_db (d_nth a 0)) in
+            L [e_list (fun ke : str * entry => L [e_str (fst ke); e_str (e_key (snd ke)); e_nat (e_id (snd ke))]) (fst (fst st));
+               e_nat (length (snd st))]
   | 13%Z => e_list (e_opt (e_res (e_opt e_str))) (run_history d (d_list d_hop (d_nth a 1)))
   | _ => L []
   end.
